@@ -4,7 +4,7 @@ from __future__ import annotations
 
 import ast
 
-from ..model import AnalysisError, norm, walk_live, parent
+from ..model import AnalysisError, norm, walk_live, parent, ancestors, first_line
 from ..report import RuleResult
 from .. import walk as W
 
@@ -540,4 +540,38 @@ def rule_accum(P, files=EARLEYS):
         if n_sites < 4:
             raise AnalysisError(f"{f.qual}: expected 4 chart-cell stores, found {n_sites}")
     r.min_instances = 5 * len(files)
+    return r
+
+
+def rule_tol_site(P):
+    r = RuleResult("TOL-SITE", "CFG.agenda uses its tolerance only to compare the old and the new total of the popped symbol "
+                   "(R.metric(old[u], new) <= tol): contributions are merged in the change chart before the test, never dropped one by "
+                   "one (many small contributions add up)", "the tolerance is applied to merged updates only")
+    f = P.func("cfg.py::CFG.agenda")
+    r.looked_at(f)
+    tol = "tol"
+    if tol not in f.params:
+        r.undecided(f, f.node, "tolerance parameter not found", construct="agenda: tolerance")
+        return r
+    uses = []
+    for g in [f] + [h for h in P.funcs.values() if h.outer is f]:
+        for n in walk_live(g.node):
+            if isinstance(n, ast.Name) and n.id == tol and isinstance(n.ctx, ast.Load):
+                uses.append((g, n))
+    if not uses:
+        r.undecided(f, f.node, "tolerance never used", construct="agenda: tolerance")
+    for g, n in uses:
+        cmp = next((a for a in ancestors(n) if isinstance(a, ast.Compare)), None)
+        ok = False
+        if cmp is not None and g is f:
+            other = cmp.left if cmp.comparators[0] is n else cmp.comparators[0]
+            txt = W.cnorm(f.node, other, cmp)
+            m = isinstance(other, ast.Call) and W.call_name(other) == "metric" and len(other.args) == 2
+            if m:
+                a0, a1 = (W.cnorm(f.node, x, cmp) for x in other.args)
+                # old[u] versus old[u] + v
+                ok = ("old[" in a0 and "+" in a1) or ("old[" in a1 and "+" in a0)
+        r.add(g, cmp if cmp is not None else n, ok, "" if ok else f"the tolerance is applied at `{first_line(W.stmt_of(n))}`, not to the merged update of the popped "
+              f"symbol: individually negligible contributions (25 000 rules of weight 4e-13) are dropped although their sum is not")
+    r.min_instances = 1
     return r
